@@ -699,8 +699,10 @@ def judge_group(cmds, answers, crash, names):
                 findings.append(('flags', '`%s` left base=%s fill=%s' % (c, field(line, 'base'), field(line, 'fill'))))
             if st not in ('ok', 'logic'):
                 findings.append(('exception', '`%s` ended with %s (neither text nor std::logic_error)' % (c, st)))
-            if st == 'ok' and field(line, 'indent') != '0':
-                findings.append(('indent', '`%s` completed and left Printer::indent() = %s' % (c, field(line, 'indent'))))
+            start = opt_int(w, 'ind', 0)
+            again = w[0] == 'print' and w[3].startswith('again:')
+            if st == 'ok' and field(line, 'indent') != str(start) and not again:
+                findings.append(('indent', '`%s` completed and left Printer::indent() = %s (it started at %d)' % (c, field(line, 'indent'), start)))
             if (slot, var) in dumps:
                 bad = alphabet_violation(text_of(line), spellings_of(dumps[(slot, var)]))
                 if bad:
@@ -711,7 +713,8 @@ def judge_group(cmds, answers, crash, names):
                 digits = {8: '%o', 10: '%d', 16: '%x'}[base] % n
                 if not text_of(line).endswith(digits.encode()):
                     findings.append(('decimal', '`%s`: the number %d came out as ...%r, not %s' % (c, n, text_of(line)[-8:], digits)))
-            if slot == 'A' and (slot, var) in dumps and (w[0], var, opts) not in requested:
+            impl_only = w[0] == 'print' and (w[3] == 'unit' or w[3].startswith('again:') or any(x.startswith('ind=') for x in w))
+            if slot == 'A' and (slot, var) in dumps and (w[0], var, opts) not in requested and not impl_only:
                 requested.add((w[0], var, opts))
                 mcmd = ('print n0 %s' % ' '.join(w[3:])) if w[0] == 'print' else ('pos n0 %s' % ' '.join(w[3:]))
                 requests.append((dumps[(slot, var)], mcmd, line, c))
